@@ -5,6 +5,9 @@
 package operators
 
 import (
+	"regexp"
+	"strings"
+
 	"github.com/coreruleset/crs-toolchain/v2/utils"
 )
 
@@ -27,6 +30,12 @@ func exists(lo, hi int, p func(int) bool) bool {
 }
 
 func implies(a, b bool) bool { return !a || b }
+
+func assert(b bool) {
+	if !b {
+		panic("ghost assertion failed")
+	}
+}
 
 // SpecDelta: effect of the byte at j on the nesting depth (unescaped parentheses only).
 func SpecDelta(s string, j int) int {
@@ -124,6 +133,7 @@ func SpecRemoveGroup(s string, gs, bs, e int, keep bool) string {
 //@   use entry LemmaCloseFrom(input, bodyStart, bodyStart)
 //@   modifies o.groupReplacementStringBuilder
 //@   ensures r == SpecRemoveGroup(input, groupStart, bodyStart, SpecCloseIdx(input, bodyStart), SpecBar(input, bodyStart, SpecCloseIdx(input, bodyStart)+1) && !ignoreAlternations)
+//@   ensures[C02] printable: implies(SpecPrintable(input), SpecPrintable(r))
 
 //@ contract Operator.removeOutermostNonCapturingGroup
 //@   tags C19 C02
@@ -132,3 +142,207 @@ func SpecRemoveGroup(s string, gs, bs, e int, keep bool) string {
 //@   use entry LemmaCloseFrom(input, 3, 3)
 //@   modifies o.groupReplacementStringBuilder
 //@   ensures r == input || (len(input) >= 4 && SpecCloseIdx(input, 3) == len(input)-1 && r == SpecRemoveGroup(input, 0, 3, len(input)-1, false))
+//@   ensures[C02] printable: implies(SpecPrintable(input), SpecPrintable(r))
+
+// ---- C02: double quotes ----------------------------------------------------------------
+
+// SpecEscQ: image of s[:k] under escapeDoublequotes as coded: a quote gets a backslash in
+// front unless the byte before it is a backslash.
+func SpecEscQ(s string, k int) string {
+	if k <= 0 || k > len(s) {
+		return ""
+	}
+	if s[k-1] == '"' && (k-1 == 0 || s[k-2] != '\\') {
+		return SpecEscQ(s, k-1) + "\\\""
+	}
+	return SpecEscQ(s, k-1) + byteStr(s[k-1])
+}
+
+// SpecQuotesEscaped: every double quote among the first n bytes is preceded by an odd
+// number of backslashes (statement B of C02).
+func SpecQuotesEscaped(s string, n int) bool {
+	return forall(0, n, func(i int) bool { return implies(s[i] == '"', utils.SpecEscaped(s, i)) })
+}
+
+// SpecNoEvenRunQuote: no quote among the first n bytes follows an even, non-empty run of
+// backslashes (the input class on which the coded rule is right).
+func SpecNoEvenRunQuote(s string, n int) bool {
+	return forall(0, n, func(j int) bool {
+		return implies(s[j] == '"', utils.SpecBsRun(s, j) == 0 || utils.SpecBsRun(s, j)%2 == 1)
+	})
+}
+
+//@ lemma LemmaEscQ
+//@   tags C02
+//@   requires 0 <= k && k <= len(s)
+//@   decreases k
+//@   ensures len(SpecEscQ(s, k)) >= k
+//@   ensures implies(SpecNoEvenRunQuote(s, k), SpecQuotesEscaped(SpecEscQ(s, k), len(SpecEscQ(s, k))))
+//@   ensures implies(SpecNoEvenRunQuote(s, k), utils.SpecBsRun(SpecEscQ(s, k), len(SpecEscQ(s, k))) == utils.SpecBsRun(s, k))
+
+func LemmaEscQ(s string, k int) {
+	if k <= 0 {
+		return
+	}
+	LemmaEscQ(s, k-1)
+	utils.LemmaPrefixRuns(SpecEscQ(s, k), SpecEscQ(s, k-1), len(SpecEscQ(s, k-1)))
+	if s[k-1] == '"' && (k-1 == 0 || s[k-2] != '\\') {
+		// a backslash and the quote were appended
+		return
+	}
+	if s[k-1] == '"' {
+		// the quote was appended as it is: it follows an odd run of backslashes
+		if SpecNoEvenRunQuote(s, k) {
+			assert(SpecNoEvenRunQuote(s, k-1))
+			utils.LemmaBsRunNonNeg(s, k-2)
+			assert(utils.SpecBsRun(s, k-1) >= 1)
+			assert(utils.SpecBsRun(s, k-1)%2 == 1)
+			assert(utils.SpecBsRun(SpecEscQ(s, k), len(SpecEscQ(s, k-1))) == utils.SpecBsRun(s, k-1))
+			assert(utils.SpecEscaped(SpecEscQ(s, k), len(SpecEscQ(s, k-1))))
+		}
+		return
+	}
+	if s[k-1] == '\\' {
+		return
+	}
+}
+
+//@ lemma LemmaEscQPrintable
+//@   tags C02
+//@   requires 0 <= k && k <= len(s)
+//@   decreases k
+//@   ensures implies(SpecPrintable(s), SpecPrintable(SpecEscQ(s, k)))
+
+func LemmaEscQPrintable(s string, k int) {
+	if k <= 0 {
+		return
+	}
+	LemmaEscQPrintable(s, k-1)
+}
+
+//@ contract Operator.escapeDoublequotes
+//@   tags C02 C19
+//@   results r
+//@   ensures functional: r == SpecEscQ(input, len(input))
+//@   use exit LemmaEscQ(input, len(input))
+//@   ensures[C02] quotes-escaped-outside-known-class: implies(SpecNoEvenRunQuote(input, len(input)), SpecQuotesEscaped(r, len(r)))
+//@   ensures[C02] quotes-escaped: SpecQuotesEscaped(r, len(r))
+//@   loop 0 invariant 0 <= rangeIndex0 && rangeIndex0 <= len(input) && binput == input
+//@   loop 0 invariant bufContent(result) == SpecEscQ(input, rangeIndex0)
+//@   use exit LemmaEscQPrintable(input, len(input))
+//@   ensures[C02] printable: implies(SpecPrintable(input), SpecPrintable(r))
+
+// ---- C19 / C02: engine-inserted flag groups ------------------------------------------------
+
+func reSpan(re *regexp.Regexp, text string) bool {
+	loc := re.FindStringIndex(text)
+	return loc != nil && loc[0] == 0 && loc[1] == len(text)
+}
+
+// firstUnescapedMatch: either nothing, or the span of a match of the pattern whose first
+// byte is not escaped. Terminates: the search position strictly increases.
+//@ contract firstUnescapedMatch
+//@   tags C19 C02
+//@   opt termination C19
+//@   results r
+//@   ensures len(r) == 0 || (len(r) == 2 && 0 <= r[0] && r[0] <= r[1] && r[1] <= len(input) && reSpan(matcher, input[r[0]:r[1]]) && !utils.SpecEscaped(input, r[0]))
+//@   loop 0 invariant 0 <= searchStart
+//@   loop 0 decreases len(input) - searchStart
+
+// OpaquePrinterShaped: the text is what the regexp/syntax printer (through rassemble-go)
+// emits, possibly rewritten by the hex/quote/backslash/white-space passes and by the removal
+// of closed flag groups. Uninterpreted: it only carries the two assumed lemmas below.
+func OpaquePrinterShaped(s string) bool { return true }
+
+// ASSUMED (printer contract): in such a text the group opened by an unescaped "(?flags:" is
+// closed, and removing that group (header and closing parenthesis) keeps the shape.
+//@ lemma LemmaFlagGroupClosed
+//@   opt assumed regexp/syntax printer output: every unescaped flag-group opener is closed, and removing a closed flag group keeps that property
+//@   requires 0 <= gs && gs <= bs && bs <= len(s) && OpaquePrinterShaped(s) && !utils.SpecEscaped(s, gs)
+//@   ensures SpecCloseIdx(s, bs) >= 0
+//@   ensures OpaquePrinterShaped(SpecRemoveGroup(s, gs, bs, SpecCloseIdx(s, bs), SpecBar(s, bs, SpecCloseIdx(s, bs)+1)))
+
+func LemmaFlagGroupClosed(s string, gs, bs int) {}
+
+// ASSUMED (printer contract): removing an unescaped flag toggle "(?flags)" keeps the shape.
+//@ lemma LemmaToggleRemoval
+//@   opt assumed regexp/syntax printer output: removing an unescaped (?flags) toggle keeps the property that unescaped flag-group openers are closed
+//@   requires 0 <= a && a <= b && b <= len(s) && OpaquePrinterShaped(s) && !utils.SpecEscaped(s, a)
+//@   ensures OpaquePrinterShaped(s[:a] + s[b:])
+
+func LemmaToggleRemoval(s string, a, b int) {}
+
+// dontUseFlagsForMetaCharacters: never indexes out of range and terminates (every
+// iteration removes at least one byte: a flag pattern match has at least four bytes).
+// The call of removeGroup needs the group to be closed: that follows from the assumed
+// printer contract only because the opener found by firstUnescapedMatch is NOT escaped.
+//@ contract Operator.dontUseFlagsForMetaCharacters
+//@   tags C19 C02
+//@   opt termination C19
+//@   results r
+//@   requires printer-shaped: OpaquePrinterShaped(input)
+//@   modifies o.groupReplacementStringBuilder
+//@   ensures OpaquePrinterShaped(r)
+//@   use call removeGroup LemmaFlagGroupClosed(result, location[0], location[1])
+//@   use loop 0 LemmaToggleRemovalAll(result)
+//@   ensures[C02] printable: implies(SpecPrintable(input), SpecPrintable(r))
+//@   loop 0 invariant OpaquePrinterShaped(result)
+//@   loop 0 invariant[C02] implies(SpecPrintable(input), SpecPrintable(result))
+//@   loop 0 decreases len(result)
+//@   loop 1 invariant OpaquePrinterShaped(result)
+//@   loop 1 invariant[C02] implies(SpecPrintable(input), SpecPrintable(result))
+//@   loop 1 decreases len(result)
+
+// quantified form of LemmaToggleRemoval (the removed span is only known inside the loop body)
+//@ lemma LemmaToggleRemovalAll
+//@   opt assumed quantified form of LemmaToggleRemoval
+//@   ensures implies(OpaquePrinterShaped(s), forall(0, len(s)+1, func(a int) bool { return forall(a, len(s)+1, func(b int) bool { return implies(!utils.SpecEscaped(s, a), OpaquePrinterShaped(s[:a]+s[b:])) }) }))
+
+func LemmaToggleRemovalAll(s string) {}
+
+// ---- C02: printable ASCII ------------------------------------------------------------------
+
+// SpecPrintable: every byte is a printable ASCII character (0x20..0x7e), hence the text is
+// one line of printable ASCII (statement A of C02).
+func SpecPrintable(s string) bool {
+	return forall(0, len(s), func(i int) bool { return 32 <= s[i] && s[i] <= 126 })
+}
+
+//@ contract Operator.useHexEscapes
+//@   tags C02 C19
+//@   results r
+//@   ensures printable: SpecPrintable(r)
+//@   loop 0 invariant SpecPrintable(bufContent(sb)) && 0 <= rangeIndex0 && rangeIndex0 <= len(input)
+
+// OpaqueReplaceAll: strings.ReplaceAll (uninterpreted; assumed to be a function of its
+// arguments whose result consists of bytes of s and of new).
+func OpaqueReplaceAll(s, old, new string) string { return strings.ReplaceAll(s, old, new) }
+
+//@ extern strings.ReplaceAll
+//@   params s old new
+//@   results r
+//@   ensures r == OpaqueReplaceAll(s, old, new)
+//@   ensures implies(SpecPrintable(s) && SpecPrintable(new), SpecPrintable(r))
+
+//@ contract Operator.useHexBackslashes
+//@   tags C02
+//@   results r
+//@   ensures functional: r == OpaqueReplaceAll(input, "\\\\", "\\x5c")
+//@   ensures printable: implies(SpecPrintable(input), SpecPrintable(r))
+
+//@ contract Operator.includeVerticalTabInSpaceClass
+//@   tags C02
+//@   results r
+//@   ensures functional: r == OpaqueReplaceAll(input, "\\t\\n\\f\\r ", "\\s\\x0b")
+//@   ensures printable: implies(SpecPrintable(input), SpecPrintable(r))
+
+// complete: the clean-up passes are applied in the order that makes the result printable
+// ASCII; with no flags declared nothing is put in front of it. The closing of unescaped
+// flag groups in the printer's output (after the text passes) is assumed at the call of
+// dontUseFlagsForMetaCharacters, and of the outermost group at removeOutermostNonCapturingGroup.
+//@ contract Operator.complete
+//@   tags C02 C19
+//@   opt trust-pre Operator.dontUseFlagsForMetaCharacters/printer-shaped Operator.removeOutermostNonCapturingGroup/closed
+//@   results r
+//@   modifies a.groupReplacementStringBuilder
+//@   ensures[C02] printable-without-flags: implies(len(assembleParser.Flags) == 0, SpecPrintable(r))
